@@ -184,7 +184,7 @@ package token
 //@   ensures [nonnil] result != nil
 //@ func NewStrategyFactory
 //@   property C03
-//@   ensures [keeps_the_strategies_in_order] result != nil && result.strategies == strategies
+//@   ensures [keeps_the_strategies_in_order] result != nil && ((forall j int :: 0 <= j && j < len(strategies) ==> strategies[j] != nil) ==> len(result.strategies) == len(strategies) && (forall j int :: 0 <= j && j < len(strategies) ==> result.strategies[j] == strategies[j]))
 //@ func NewFuncRegisterer
 //@   property C03 C14
 //@   ensures [fields_as_given] result != nil && result.prepender == p && result.aliaser == a
